@@ -123,6 +123,156 @@ example : gcDist realTrig 0 0 90 0 = Real.pi / 2 := by
   have : (90 : ℝ) * (Real.pi / 180) = Real.pi / 2 := by ring
   simp [this]
 
+/-! ### distances depend only on directions (Cartesian positions of any radius) -/
+
+theorem dot3_scale (c d : ℝ) (a b : V3 ℝ) :
+    dot3 (scale3 c a) (scale3 d b) = c * d * dot3 a b := by
+  cases a; cases b
+  simp only [dot3, scale3]
+  ring
+
+theorem cross3_scale (c d : ℝ) (a b : V3 ℝ) :
+    cross3 (scale3 c a) (scale3 d b) = scale3 (c * d) (cross3 a b) := by
+  cases a; cases b
+  simp only [cross3, scale3]
+  congr 1 <;> ring
+
+/-- normalising forgets a positive radius -/
+theorem normalize3_scale (c : ℝ) (hc : 0 < c) (a : V3 ℝ) :
+    normalize3 Real.sqrt (scale3 c a) = normalize3 Real.sqrt a := by
+  have h : Real.sqrt (dot3 (scale3 c a) (scale3 c a)) = c * Real.sqrt (dot3 a a) := by
+    rw [dot3_scale, show c * c * dot3 a a = c ^ 2 * dot3 a a by ring,
+      Real.sqrt_mul (sq_nonneg c), Real.sqrt_sq hc.le]
+  cases a
+  simp only [normalize3, h]
+  simp only [scale3, mul_div_mul_left _ _ hc.ne']
+
+/-- a normalised non-zero vector is a unit vector -/
+theorem normalize3_unit (a : V3 ℝ) (ha : dot3 a a ≠ 0) :
+    dot3 (normalize3 Real.sqrt a) (normalize3 Real.sqrt a) = 1 := by
+  have hpos : 0 < dot3 a a := lt_of_le_of_ne (dot3_self_nonneg a) (Ne.symm ha)
+  have hs : Real.sqrt (dot3 a a) ≠ 0 := (Real.sqrt_pos.mpr hpos).ne'
+  have hsq : Real.sqrt (dot3 a a) * Real.sqrt (dot3 a a) = dot3 a a :=
+    Real.mul_self_sqrt hpos.le
+  cases a with
+  | mk x y z =>
+    simp only [normalize3, dot3] at *
+    have e : x / Real.sqrt (x * x + y * y + z * z) * (x / Real.sqrt (x * x + y * y + z * z))
+        + y / Real.sqrt (x * x + y * y + z * z) * (y / Real.sqrt (x * x + y * y + z * z))
+        + z / Real.sqrt (x * x + y * y + z * z) * (z / Real.sqrt (x * x + y * y + z * z))
+        = (x * x + y * y + z * z)
+          / (Real.sqrt (x * x + y * y + z * z) * Real.sqrt (x * x + y * y + z * z)) := by
+      field_simp
+    rw [e, hsq, div_self ha]
+
+theorem normalize3_of_unit (a : V3 ℝ) (ha : dot3 a a = 1) : normalize3 Real.sqrt a = a := by
+  cases a
+  simp [normalize3, ha]
+
+/-- **scale invariance of the distance model**: the arc between two positions depends only on
+    their directions — `dist (c•a) (d•b) = dist a b` for `c, d > 0` (non-zero positions) -/
+theorem dirDist_scale_invariant (c d : ℝ) (hc : 0 < c) (hd : 0 < d) (a b : V3 ℝ)
+    (_ha : dot3 a a ≠ 0) (_hb : dot3 b b ≠ 0) :
+    dirDist Real.arccos Real.sqrt (scale3 c a) (scale3 d b)
+      = dirDist Real.arccos Real.sqrt a b := by
+  simp only [dirDist, normalize3_scale c hc, normalize3_scale d hd]
+
+/-- **scale invariance of the oracle**: `atan2(|a×b|, a·b)` needs no normalisation at all -/
+theorem oracleAngle_scale_invariant (c d : ℝ) (hc : 0 < c) (hd : 0 < d) (a b : V3 ℝ) :
+    oracleAngle Real.sqrt realAtan2 (scale3 c a) (scale3 d b)
+      = oracleAngle Real.sqrt realAtan2 a b := by
+  have hcd : 0 < c * d := mul_pos hc hd
+  unfold oracleAngle realAtan2
+  rw [cross3_scale, dot3_scale, dot3_scale,
+    show c * d * (c * d) * dot3 (cross3 a b) (cross3 a b)
+      = (c * d) ^ 2 * dot3 (cross3 a b) (cross3 a b) by ring,
+    Real.sqrt_mul (sq_nonneg _), Real.sqrt_sq hcd.le]
+  have : (⟨c * d * dot3 a b, c * d * Real.sqrt (dot3 (cross3 a b) (cross3 a b))⟩ : ℂ)
+      = ((c * d : ℝ) : ℂ) * ⟨dot3 a b, Real.sqrt (dot3 (cross3 a b) (cross3 a b))⟩ := by
+    apply Complex.ext <;> simp
+  rw [this, Complex.arg_real_mul _ hcd]
+
+/-- the model with the explicit normalisation step IS the oracle on raw positions -/
+theorem dirDist_eq_oracle (a b : V3 ℝ) (ha : dot3 a a ≠ 0) (hb : dot3 b b ≠ 0) :
+    dirDist Real.arccos Real.sqrt a b = oracleAngle Real.sqrt realAtan2 a b := by
+  have hpa : 0 < dot3 a a := lt_of_le_of_ne (dot3_self_nonneg a) (Ne.symm ha)
+  have hpb : 0 < dot3 b b := lt_of_le_of_ne (dot3_self_nonneg b) (Ne.symm hb)
+  have ea : normalize3 Real.sqrt a = scale3 (1 / Real.sqrt (dot3 a a)) a := by
+    cases a; simp only [normalize3, scale3]; congr 1 <;> ring
+  have eb : normalize3 Real.sqrt b = scale3 (1 / Real.sqrt (dot3 b b)) b := by
+    cases b; simp only [normalize3, scale3]; congr 1 <;> ring
+  unfold dirDist
+  rw [← oracle_eq_arccos _ _ (normalize3_unit a ha) (normalize3_unit b hb), ea, eb]
+  exact oracleAngle_scale_invariant _ _ (one_div_pos.mpr (Real.sqrt_pos.mpr hpa))
+    (one_div_pos.mpr (Real.sqrt_pos.mpr hpb)) a b
+
+/-- on Cartesian images (of ANY radii `R, S > 0`) of two lon/lat points the direction distance
+    is exactly the law-of-cosines distance the code computes from lon/lat -/
+theorem dirDist_xyz_eq_gcDist (R S : ℝ) (hR : 0 < R) (hS : 0 < S) (lonA latA lonB latB : ℝ) :
+    dirDist Real.arccos Real.sqrt
+        (scale3 R (xyz realTrig (realTrig.deg2rad lonA) (realTrig.deg2rad latA)))
+        (scale3 S (xyz realTrig (realTrig.deg2rad lonB) (realTrig.deg2rad latB)))
+      = gcDist realTrig lonA latA lonB latB := by
+  have h1 : dot3 (xyz realTrig (realTrig.deg2rad lonA) (realTrig.deg2rad latA))
+      (xyz realTrig (realTrig.deg2rad lonA) (realTrig.deg2rad latA)) ≠ 0 := by
+    rw [xyz_unit]; exact one_ne_zero
+  have h2 : dot3 (xyz realTrig (realTrig.deg2rad lonB) (realTrig.deg2rad latB))
+      (xyz realTrig (realTrig.deg2rad lonB) (realTrig.deg2rad latB)) ≠ 0 := by
+    rw [xyz_unit]; exact one_ne_zero
+  rw [dirDist_scale_invariant R S hR hS _ _ h1 h2]
+  unfold dirDist gcDist
+  rw [normalize3_of_unit _ (xyz_unit _ _), normalize3_of_unit _ (xyz_unit _ _), lawcos_eq_dot]
+  rfl
+
+/-- **the face-distance table is radius-invariant**: rescaling every face centre by its own
+    positive factor changes nothing -/
+theorem edgeFaceDistXYZ_scale_invariant (r : FaceIx → ℝ) (hr : ∀ f, 0 < r f)
+    (centre : FaceIx → V3 ℝ) (hc : ∀ f, dot3 (centre f) (centre f) ≠ 0) (ef : EdgeFaces) :
+    edgeFaceDistXYZ Real.arccos Real.sqrt (fun f => scale3 (r f) (centre f)) ef
+      = edgeFaceDistXYZ Real.arccos Real.sqrt centre ef := by
+  unfold edgeFaceDistXYZ
+  apply List.map_congr_left
+  rintro ⟨f, g⟩ _
+  cases g with
+  | none => rfl
+  | some g => exact dirDist_scale_invariant _ _ (hr f) (hr g) _ _ (hc f) (hc g)
+
+/-- the same for the node-distance table (nodes of mixed radii) -/
+theorem edgeNodeDistXYZ_scale_invariant (r : NodeIx → ℝ) (hr : ∀ i, 0 < r i)
+    (node : NodeIx → V3 ℝ) (hn : ∀ i, dot3 (node i) (node i) ≠ 0) (en : EdgeNodes) :
+    edgeNodeDistXYZ Real.arccos Real.sqrt (fun i => scale3 (r i) (node i)) en
+      = edgeNodeDistXYZ Real.arccos Real.sqrt node en := by
+  unfold edgeNodeDistXYZ
+  apply List.map_congr_left
+  rintro ⟨a, b⟩ _
+  exact dirDist_scale_invariant _ _ (hr a) (hr b) _ _ (hn a) (hn b)
+
+/-- … and whatever the radii, it is the lon/lat table of §B: the two forms in which a source
+    may give the centres denote the same distances -/
+theorem edgeFaceDistXYZ_eq_edgeFaceDist (r : FaceIx → ℝ) (hr : ∀ f, 0 < r f)
+    (faceLon faceLat : FaceArr ℝ) (ef : EdgeFaces) :
+    edgeFaceDistXYZ Real.arccos Real.sqrt
+        (fun f => scale3 (r f)
+          (xyz realTrig (realTrig.deg2rad (faceLon f)) (realTrig.deg2rad (faceLat f)))) ef
+      = edgeFaceDist realTrig faceLon faceLat ef := by
+  unfold edgeFaceDistXYZ edgeFaceDist
+  apply List.map_congr_left
+  rintro ⟨f, g⟩ _
+  cases g with
+  | none => rfl
+  | some g =>
+    simp only [faceDistOf, pairDist]
+    exact dirDist_xyz_eq_gcDist _ _ (hr f) (hr g) _ _ _ _
+
+/-- non-vacuity: a seeded alternative "arc = 2 arcsin(|a−b|/2)" on raw positions is NOT
+    scale invariant — two positions of radius 2 a quarter circle apart have chord 2√2, not √2 -/
+example : dot3 (scale3 2 (⟨1, 0, 0⟩ : V3 ℝ)) (scale3 2 ⟨1, 0, 0⟩) = 4 ∧
+    dirDist Real.arccos Real.sqrt (scale3 2 (⟨1, 0, 0⟩ : V3 ℝ)) (scale3 2 ⟨0, 1, 0⟩)
+      = dirDist Real.arccos Real.sqrt ⟨1, 0, 0⟩ ⟨0, 1, 0⟩ := by
+  refine ⟨by simp [dot3, scale3]; norm_num, ?_⟩
+  exact dirDist_scale_invariant 2 2 (by norm_num) (by norm_num) _ _
+    (by simp [dot3]) (by simp [dot3])
+
 /-! ## §B index typing -/
 
 section typing
